@@ -728,10 +728,14 @@ def sa_norm_undetected(dtd, doc):
             for an, raw in n[2]:
                 a = dtd.attdecl(n[1], an) if n[1] in dtd.elements else None
                 if a and a['type'] in TOKENISED and a['loc'] in EXTERNAL_LOCS and norm_tok(raw) != norm_cdata(raw):
-                    if raw[:1] in ' \t\n\r' or re.search('[\t\n\r][ \t\n\r]', raw): hit['det'] = True
+                    # (the TAB/CR/LF-then-space form is only recognised at the start of a white-space run and only on the namespace-less
+                    #  path, so it is not relied upon: only leading white space counts as detectable)
+                    if raw[:1] in ' \t\n\r': hit['det'] = True
                     else: hit['undet'] = True
             for c in n[3]: walk(c)
     walk(doc['root'])
+    for e in dtd.entities.values():          # attribute values inside the replacement text of referenced entities count as well
+        for c in e['nodes']: walk(c)
     return hit['undet'] and not hit['det']
 
 def sa_ws_undetected(dtd, doc):
